@@ -1023,6 +1023,11 @@ func (y *ifFeatureEval) factor() (bool, bool) {
 		return a, true
 	default:
 		y.pos++
+		// a feature name may carry the prefix of the module that defines it, the
+		// enabled features are kept by name only
+		if colon := strings.IndexRune(tok, ':'); colon >= 0 {
+			tok = tok[colon+1:]
+		}
 		_, found := y.features[tok]
 		return found, true
 	}
